@@ -9,6 +9,7 @@ import (
 	"github.com/ipfs/go-unixfsnode/file"
 	"github.com/ipfs/go-unixfsnode/hamt"
 	"github.com/ipld/go-ipld-prime"
+	"github.com/ipld/go-ipld-prime/linking"
 	"io"
 	"os"
 	"runtime"
@@ -580,5 +581,79 @@ func TestC17_R_SlowLoadDoesNotBlockOtherUsers(t *testing.T) {
 			t.Fatalf("C17: the held-back %s did not return within 20 s of its block being served", op)
 		}
 		st.Park = nil
+	}
+}
+
+// "Any number of goroutines": 320 goroutines make their first lookups on one fresh sharded-directory node whose storage is
+// slow - the store serves nothing until 256 requests are waiting (or three seconds have passed). Everybody gets the right
+// link and everybody returns.
+func TestC17_R_HundredsOfGoroutinesOnASlowStore(t *testing.T) {
+	const G = 320
+	st := NewStore()
+	var es []entrySpec
+	for i := 0; i < 4000; i++ {
+		es = append(es, entryFor(fmt.Sprintf("entry-%04d", i), 0))
+	}
+	root, _, err := buildSharded(st, es, 16)
+	if err != nil {
+		t.Fatal(err)
+	}
+	ls := st.LinkSystem()
+	rn, err := loadReified(ls, root, "unixfs")
+	if err != nil {
+		t.Fatal(err)
+	}
+	var mu sync.Mutex
+	waiting := 0
+	release := make(chan struct{})
+	var once sync.Once
+	inner := ls.StorageReadOpener
+	ls.StorageReadOpener = func(lc linking.LinkContext, l datamodel.Link) (io.Reader, error) {
+		mu.Lock()
+		waiting++
+		if waiting >= 256 {
+			once.Do(func() { close(release) })
+		}
+		mu.Unlock()
+		select {
+		case <-release:
+		case <-time.After(3 * time.Second):
+			once.Do(func() { close(release) })
+		}
+		return inner(lc, l)
+	}
+	errs := make(chan string, G)
+	var wg sync.WaitGroup
+	for g := 0; g < G; g++ {
+		wg.Add(1)
+		go func(g int) {
+			defer wg.Done()
+			for i := 0; i < 3; i++ {
+				e := es[(g*37+i*1301)%len(es)]
+				v, err := rn.LookupByString(e.Name)
+				if err != nil {
+					errs <- fmt.Sprintf("goroutine %d: lookup %q: %v", g, e.Name, err)
+					return
+				}
+				if c, _ := linkOf(v); c != e.Cid {
+					errs <- fmt.Sprintf("goroutine %d: lookup %q returned another entry's link", g, e.Name)
+					return
+				}
+			}
+		}(g)
+	}
+	done := make(chan struct{})
+	go func() { wg.Wait(); close(done) }()
+	select {
+	case <-done:
+	case <-time.After(60 * time.Second):
+		t.Fatalf("C17: %d goroutines looking names up in one fresh sharded directory over a slow store: not all of them returned within 60 s (%d requests had reached the store)", G, waiting)
+	}
+	close(errs)
+	for e := range errs {
+		t.Fatalf("C17: %d goroutines on one node: %s", G, e)
+	}
+	if rn.Length() != int64(len(es)) {
+		t.Fatalf("C17: Length() = %d afterwards, want %d", rn.Length(), len(es))
 	}
 }
